@@ -11,6 +11,7 @@ func init() {
 const survMu = "protocol/surveyor.socket.Mutex"
 
 func runC07(p *Prog, r *Report) {
+	crossCutting(p, r, "C07.X", "protocol/surveyor", "protocol/xsurveyor", "protocol/respondent", "protocol/xrespondent")
 	lockBalance(p, r, "C07.8/E1", "protocol/surveyor", "protocol/xsurveyor", "protocol/respondent")
 	q := NewQ(p, r)
 	R := "C07.1/response-matching"
@@ -128,6 +129,18 @@ func runC07(p *Prog, r *Report) {
 	e5SendContracts(p, r, "C07.10/send-contract", func(rel string) bool {
 		return rel == "protocol/surveyor" || rel == "protocol/xsurveyor" || rel == "protocol/respondent" || rel == "protocol/xrespondent"
 	})
+
+	r.Describe("C07.11/header-split-order", "the survey id / hop word is the first word of the body as it arrived")
+	headerSplitOrder(p, r, "C07.11/header-split-order", func(rel string) bool {
+		return rel == "protocol/surveyor" || rel == "protocol/xsurveyor" || rel == "protocol/respondent" || rel == "protocol/xrespondent"
+	})
+
+	r.Describe("C07.12/unique-sites", "a survey message the application also holds (or sent on another context) is made private before its header is overwritten with this survey's id")
+	uniqueSites(p, r, "C07.12/unique-sites", func(rel string) bool { return rel == "protocol/surveyor" })
+	r.Describe("C07.13/E5", "message ownership (E5) on the SURVEYOR/RESPONDENT paths")
+	ownershipIn(p, r, "C07.13/E5", "protocol/surveyor", "protocol/xsurveyor", "protocol/respondent", "protocol/xrespondent")
+	r.Describe("C07.14/raw-routing", "the raw respondent routes a response by the first header word to exactly that pipe (shared with C05.4)")
+	c05Raw(p, r, "C07.14/raw-routing", []string{"protocol/xrespondent"})
 
 	R = "C07.5/recv"
 	r.Describe(R, "context.RecvMsg: no current survey => ErrProtoState without waiting; a closed queue yields the survey's recorded error")
